@@ -215,7 +215,7 @@ pub fn gen_param_pool(d: &mut Draw, lib: &Library) -> Vec<DutParams> {
             let mut p = v[d.below_usize(v.len())].clone();
             match d.below(3) {
                 0 => p.w = *d.pick(&[8u32, 16, 13, 32, 64, 5, 40, 100]),
-                1 => p.depth = *d.pick(&[4u32, 2, 40, 64, 33, 130]),
+                1 => p.depth = *d.pick(&[4u32, 2, 40, 8, 33]),
                 _ => p.m = 1 + d.below(6),
             }
             p
@@ -223,7 +223,7 @@ pub fn gen_param_pool(d: &mut Draw, lib: &Library) -> Vec<DutParams> {
             DutParams {
                 dut: d.below_usize(lib.n_dut),
                 w: *d.pick(&[8u32, 16, 32, 64, 13, 40, 100, 4]),
-                depth: *d.pick(&[4u32, 64, 40, 2, 33, 130]),
+                depth: *d.pick(&[4u32, 40, 2, 33, 8]),
                 m: 1 + d.below(6),
             }
         };
